@@ -97,7 +97,8 @@ class Signal(np.lib.mixins.NDArrayOperatorsMixin):
         self.meta = meta
 
     def __array_ufunc__(self, ufunc, method, *inputs, out=None, **kwargs):
-        if method != "__call__" or ufunc == np.matmul:
+        # Generalised ufuncs (matmul, vecdot, matvec, ...) contract axes away.
+        if method != "__call__" or ufunc.signature is not None:
             return NotImplemented
 
         in_arr = tuple((i.data if isinstance(i, Signal) else i) for i in inputs)
